@@ -24,7 +24,27 @@ func (e *Engine) execGo(st *State, fr *Frame, g *ssa.Go) { panic(unsupported("go
 func (e *Engine) checkSharedWrite(st *State, fr *Frame, loc *Loc, pos string) {}
 
 func (e *Engine) havocGhost(st *State, w *writeSet)                       {}
-func (e *Engine) havocGhostNamed(st *State, name string, se *SpecEnv)      {}
+// havocGhostNamed implements `assigns ghost(name)` (whole ghost variable) and `assigns ghost(name, ref)` (one row).
+func (e *Engine) havocGhostNamed(st *State, spec string, se *SpecEnv) {
+	parts := splitTop(spec, ',')
+	name := strings.TrimSpace(parts[0])
+	gv, ok := e.cs.GhostVars[name]
+	if !ok {
+		panic(unsupported("assigns ghost(%s): unknown ghost variable", name))
+	}
+	cur := e.ghostArray(st, gv, se)
+	if len(parts) == 1 {
+		st.ghost[name] = Val{T: nil, L: []Term{e.ctx.Fresh("ghost_"+name, cur.L[0].Sort)}, G: gv}
+		return
+	}
+	ex, err := ParseSpecExpr(parts[1])
+	if err != nil {
+		panic(unsupported("assigns ghost(%s): %v", spec, err))
+	}
+	idx := e.evalSpec(ex, se).L[0]
+	row := e.ctx.Fresh("ghostrow_"+name, arrElem(cur.L[0].Sort))
+	st.ghost[name] = Val{T: nil, L: []Term{Store(cur.L[0], idx, row)}, G: gv}
+}
 func (e *Engine) scanExternWrites(callee *ssa.Function, cc *ssa.CallCommon, w *writeSet, env TEnv) {
 	w.allocs = true
 }
